@@ -229,12 +229,12 @@ class ConformationContainer:
         for group in self.groups:
             group.calculate_total_pka()
         # take coupling effects into account
-        penalised_labels = self.coupling_effects()
+        penalised_groups = self.coupling_effects()
         if (self.parameters.remove_penalised_group
-                and len(penalised_labels) > 0):
+                and len(penalised_groups) > 0):
             _LOGGER.info('Removing penalised groups!!!')
             for group in self.get_titratable_groups():
-                group.remove_determinants(penalised_labels)
+                group.remove_determinants(penalised_groups)
             # re-calculating the total pKa values
             for group in self.groups:
                 group.calculate_total_pka()
@@ -257,7 +257,7 @@ class ConformationContainer:
         raised and will be penalised. The remaining groups are allowed to
         titrate.
         """
-        penalised_labels = []
+        penalised_groups = []
         for all_groups in self.get_coupled_systems(
                 self.get_covalently_coupled_groups(),
                 Group.get_covalently_coupled_groups):
@@ -271,7 +271,7 @@ class ConformationContainer:
                 first_group.coupled_titrating_group = min(
                     all_groups, key=lambda g: g.pka_value)
                 # group with the highest pKa is penalised
-                penalised_labels.append(first_group.label)
+                penalised_groups.append(first_group)
             # In case of bases
             else:
                 for group in all_groups:
@@ -280,8 +280,8 @@ class ConformationContainer:
                         continue
                     group.coupled_titrating_group = first_group
                     # ... and the rest are penalised
-                    penalised_labels.append(group.label)
-        return penalised_labels
+                    penalised_groups.append(group)
+        return penalised_groups
 
     @staticmethod
     def share_determinants(groups: Iterable[Group]):
